@@ -95,6 +95,7 @@ func main() {
 			cases = append(cases, names.AutonameAcrossPasses()...)
 			cases = append(cases, names.ChanC11(r)...)
 			cases = append(cases, names.StaleC11()...)
+			cases = append(cases, names.HandWrittenOverStaleC11()...)
 			cases = append(cases, names.TagsC11(r)...)
 			cases = append(cases, names.IfaceC11(r)...)
 			cases = append(cases, names.TwoPackagesC11()...)
